@@ -79,7 +79,7 @@ Scalar = TReal
 
 
 def smt_sort(t):
-    if t.k in ('int', 'ref', 'dict', 'list', 'str', 'htuple', 'any'):
+    if t.k in ('int', 'ref', 'dict', 'list', 'str', 'htuple', 'any', 'kwargs'):
         return I
     if t.k == 'real':
         return R
@@ -262,6 +262,10 @@ class Heap:
         self.arr[name] = arr
 
 
+STR_LOWER = z3.Function('str_lower', I, I)
+KW_EMPTY = z3.Int('kwargs_empty')
+
+
 def extra_param_type(default):
     if isinstance(default, ast.Constant):
         v = default.value
@@ -294,6 +298,22 @@ def extra_params_of(key):
             pass
         _EXTRA_PARAMS[key] = out
     return _EXTRA_PARAMS[key]
+
+
+_REAL_ORDER = {}
+
+
+def real_positional_order(key):
+    """positional parameter names of the real function behind a contract key (None when there is no such function in the tree)"""
+    if key not in _REAL_ORDER:
+        try:
+            from . import front
+            path, qual = key.split('::')
+            fn = front.find_function(path, qual)[0]
+            _REAL_ORDER[key] = [a.arg for a in fn.args.posonlyargs + fn.args.args]
+        except Exception:       # noqa
+            _REAL_ORDER[key] = None
+    return _REAL_ORDER[key]
 
 
 def fresh_value(ty, base):
@@ -562,7 +582,7 @@ class Engine:
             return vpy(('class', e.id))
         if self.reg.lookup_function(e.id) is not None:
             return vpy(('function', e.id))
-        if e.id in ('np', 'pd', 'warnings', 'cp', 'mosek'):
+        if e.id in ('np', 'pd', 'warnings', 'cp', 'mosek', 'importlib'):
             return vpy(('module', e.id))
         if e.id in self.reg.module_globals:
             return self.reg.module_globals[e.id](self, st)
@@ -636,6 +656,13 @@ class Engine:
             # `a or b` with a Optional: value-level select
             a, b = vals
             return V(b.ty, z3.If(ts[0], a.t, b.t))
+        if len(vals) == 2 and all(v.ty.k in ('int', 'real') for v in vals):
+            # value-level select: `x or default` is x unless x is zero
+            a, b = vals
+            pick_a = ts[0] if isinstance(e.op, ast.Or) else z3.Not(ts[0])
+            if a.ty.k == b.ty.k == 'int':
+                return vint(z3.If(pick_a, a.t, b.t))
+            return vreal(z3.If(pick_a, to_real(a.t), to_real(b.t)))
         return vbool(z3.And(*ts) if isinstance(e.op, ast.And) else z3.Or(*ts))
 
     def ev_IfExp(self, e, st):
@@ -1028,6 +1055,12 @@ class Engine:
                 if j < 0:
                     j += len(base.ty.a)
                 return self.htuple_item(st.heap, base.ty.a[j], j, base.t)
+        if base.ty.k == 'calltable':
+            idx = self.ev(e.slice, st)
+            if idx.ty.k != 'str':
+                raise OutOfSubset('table of callables indexed by %r at line %d' % (idx.ty, e.lineno))
+            self.emit('safe.KeyError@%d' % e.lineno, st, base.py[1](idx.t), e.lineno, tag='aux')
+            return V(T('callable', base.py[0]), idx.t)
         if base.ty.k == 'ref' and self.reg.lookup_method(base.ty.a[0], '__getitem__') is not None:
             return self.call_method(st, base, '__getitem__', [self.ev(e.slice, st)], {}, e.lineno)
         raise OutOfSubset('subscript of %r at line %d' % (base.ty, e.lineno))
@@ -1165,7 +1198,9 @@ class Engine:
             # super().__init__(...)
             recv = self.ev(f.value, st)
             args = [self.ev(a, st) for a in e.args]
-            kw = {k.arg: self.ev(k.value, st) for k in e.keywords}
+            kw = self.ev_keywords(e, st)
+            if recv.ty.k == 'str' and f.attr == 'lower' and not args and not kw:
+                return V(TStr, STR_LOWER(recv.t))
             if recv.ty.k == 'py':
                 return self.call_py(st, ('attr', recv.py, f.attr), args, kw, e)
             if recv.ty.k == 'str' and f.attr == 'format' and not kw and 1 <= len(args) <= 5 and all(
@@ -1183,13 +1218,28 @@ class Engine:
             return self.call_method(st, recv, f.attr, args, kw, e.lineno)
         fn = self.ev(f, st)
         args = [self.ev(a, st) for a in e.args]
-        kw = {k.arg: self.ev(k.value, st) for k in e.keywords}
+        kw = self.ev_keywords(e, st)
         if fn.ty.k == 'py':
             return self.call_py(st, fn.py, args, kw, e)
+        if fn.ty.k == 'callable' and fn.t is not None:
+            # an entry of a table of callables (WRAPPERS[name]): the abstract contract receives the key as its first argument
+            return self.apply_contract(st, self.reg.by_key[fn.ty.a[0]], [V(TStr, fn.t)] + args, kw, e.lineno, fn.ty.a[0])
         if fn.ty.k == 'callable':
             # a function-valued parameter: known only through the abstract contract the side-car gives it
             return self.apply_contract(st, self.reg.by_key[fn.ty.a[0]], args, kw, e.lineno, fn.ty.a[0])
         raise OutOfSubset('call of %r at line %d' % (fn.ty, e.lineno))
+
+    def ev_keywords(self, e, st):
+        kw = {}
+        for k in e.keywords:
+            v = self.ev(k.value, st)
+            if k.arg is None:
+                if v.ty.k != 'kwargs':
+                    raise OutOfSubset('** of %r at line %d' % (v.ty, e.lineno))
+                kw['**'] = v
+            else:
+                kw[k.arg] = v
+        return kw
 
     def call_py(self, st, what, args, kw, e):
         line = e.lineno
@@ -1442,15 +1492,31 @@ class Engine:
 
     def bind_args(self, c, args, kw, line):
         names = [p[0] for p in c.params]
+        if len(args) > 1 and '::' in c.key:
+            real = real_positional_order(c.key)
+            if real is not None:
+                ro = [n for n in real if n in names]
+                wo = [n for n in names if n in real]
+                if ro != wo:
+                    raise OutOfSubset('positional call of %s at line %d: its real parameters are %s, its contract lists them as %s' % (c.key, line, ro, wo))
         if len(args) > len(names):
             raise OutOfSubset('too many arguments for %s at line %d' % (c.key, line))
         bound = dict(zip(names, args))
+        if '**' in kw:
+            kwp = [pn for pn, pt in c.params if pt.k == 'kwargs']
+            if not kwp or kwp[0] in bound:
+                raise OutOfSubset('** passed to %s, which has no **-parameter in its contract (line %d)' % (c.key, line))
+            kw = dict(kw)
+            bound[kwp[0]] = kw.pop('**')
         for k, v in kw.items():
             if k not in names and k not in bound and '::' in c.key and k in extra_params_of(c.key):
                 continue        # an optional parameter the callee's contract does not know: the callee is verified for every value of it
             if k not in names or k in bound:
                 raise OutOfSubset('bad keyword %s for %s at line %d' % (k, c.key, line))
             bound[k] = v
+        for n, pt in c.params:
+            if n not in bound and pt.k == 'kwargs':
+                bound[n] = V(T('kwargs'), KW_EMPTY)
         for n in names:
             if n not in bound:
                 if n in c.defaults:
